@@ -3,8 +3,8 @@ CONSTANTS
   NClasses = 3
   NInsts = 2
   Bodies = {}
-  Cfgs = {"pmax"}
-  Muts = {"setmax"}
+  Cfgs = {"pmaxK"}
+  Muts = {"setmax", "limmember"}
   DescIds = {"d"}
   MaxBases = 2
   MaxMuts = 1
